@@ -623,3 +623,15 @@ Theorem C08_simulation_is_an_LTS_run : forall c fuel horizon m, no_garbage_crash
   exists ls, run c (sst m) ls = Some (sst (simulate c fuel horizon m)).
 Proof. intros c fuel. exact (simulate_refines_lts c fuel). Qed.
 Print Assumptions C08_simulation_is_an_LTS_run.
+
+(** A lock file that is not stale keeps every contender waiting, however old its Created stamp is
+    (a lock held and refreshed for hours or days stays its holder's). *)
+Theorem C08_fresh_file_makes_a_waiter_sleep : forall c s i cr u w ec, file s = Some i -> content s i = FMeta cr u ->
+  is_stale c (now s) cr u = false -> cs s w = CExists ec ->
+  exists s1 ec', step c s (LOpenRead w) = Some s1 /\ cs s1 w = CSleep ec' (now s + poll c) /\ file s1 = file s.
+Proof. exact fresh_file_makes_a_waiter_sleep. Qed.
+Print Assumptions C08_fresh_file_makes_a_waiter_sleep.
+Theorem C08_fresh_prefile_monitor_sound : forall c tf, fresh_prefile_respected c = true -> pre_free_at c = Some tf ->
+  forall o, In o (cobs c) -> oout o = 0 -> tf - 100000000 <= otime o.
+Proof. exact fresh_prefile_respected_sound. Qed.
+Print Assumptions C08_fresh_prefile_monitor_sound.
